@@ -450,6 +450,9 @@ type TypeContract struct {
 	Invariants []*Clause
 	Stable     []string // fields never assigned outside the functions in StableSetIn
 	StableIn   []string // function names allowed to assign stable fields (constructors)
+	// PureFuncs: fields of function type whose values (injected clocks, random sources, ...) are
+	// assumed to touch nothing of the program: a call through such a field havocs no heap
+	PureFuncs []string
 }
 
 type MonitorSpec struct {
@@ -755,6 +758,18 @@ func (db *ContractDB) ParseContracts(file string, lines []string, lineNos []int,
 					} else {
 						curT.StableIn = append(curT.StableIn, a)
 					}
+				}
+			}
+		case "purefunc":
+			if err := finish(); err != nil {
+				return err
+			}
+			if curT == nil {
+				return errf("purefunc outside type")
+			}
+			for _, a := range strings.Split(rest, ",") {
+				if a = strings.TrimSpace(a); a != "" {
+					curT.PureFuncs = append(curT.PureFuncs, a)
 				}
 			}
 		case "monitor":
